@@ -1,4 +1,5 @@
 """models of the std / md5 / phf callees (registered into stubs.STUBS)"""
+import re
 from lin import Lin, c_le, c_lt, c_eq, c_ne
 from absval import *
 from stubs import (stub, deref, get_vec, as_slice, slice_desc, mk_option, mk_result, split_variants,
@@ -206,7 +207,7 @@ def index_common(eng, st, site, func, args, dty, checked, kind, unsafe=False):
     r = range_of(eng, st, idx, s.len)
     if r == "unsupported":
         return None
-    if r is None and isinstance(idx, VInt) and not idx.lin.is_const() and s.len.is_const() and s.len.c <= 16 \
+    if r is None and isinstance(idx, VInt) and not idx.lin.is_const() and s.len.is_const() and s.len.c <= 64 \
             and isinstance(s.base, tuple) and s.base and s.base[0] == "loc" and s.start.is_const() and not getattr(s, "mut", False):
         # a small table indexed by a computed value: one case per entry (and the out-of-range case)
         tgt = eng.load(st, s.base[1], s.base[2])
@@ -727,6 +728,17 @@ def from_be_bytes(eng, st, site, func, target, args, dty):
         if a.src is not None and a.src[0] == "slice" and isinstance(a.src[1], tuple) and a.src[1] and a.src[1][0] == "be" \
                 and isinstance(a.src[1][1], VInt) and a.src[1][2] == a.n:
             return [(st, a.src[1][1])]          # from_be_bytes(to_be_bytes(v)) = v
+        if a.src is not None and a.src[0] == "slice" and isinstance(a.src[1], tuple) and a.src[1] and a.src[1][0] == "const" and len(a.src[1][1]) == a.n:
+            v = 0
+            for c_ in a.src[1][1]:
+                v = v * 256 + c_
+            return [(st, eng.const_int(dty, v))]
+        if a.src is not None and a.src[0] == "slice" and isinstance(a.src[1], tuple) and a.src[1] and a.src[1][0] == "elems" \
+                and len(a.src[1][1]) == a.n and all(isinstance(e, VInt) for e in a.src[1][1]):
+            lin = Lin.const(0)
+            for e in a.src[1][1]:
+                lin = lin.scale(256) + e.lin
+            return [(st, VInt(dty, lin))]
         if a.src is not None:
             nm = "be(%r)" % (a.src[1] if a.src[0] == "slice" else a.src,)
             return [(st, eng.named_int(dty, nm, bits_sym=True))]
@@ -918,6 +930,25 @@ def total_opaque(eng, st, site, func, target, args, dty):
     nm = target["name"]
     if nm == "std::hint::must_use":
         return [(st, args[0])]
+    m_ = re.search(r"rt::Argument::<'_>::new_(display|debug|lower_hex|upper_hex)$", nm)
+    if m_ and args:
+        # a value of one of the crate's own types handed to the formatting machinery: its Display / Debug impl will be
+        # called with it, so what that impl does (and requires) belongs to this path
+        tr = {"display": "std::fmt::Display", "debug": "std::fmt::Debug", "lower_hex": "std::fmt::LowerHex", "upper_hex": "std::fmt::UpperHex"}[m_.group(1)]
+        ga = [g for g in (target.get("args") or func.get("args") or []) if isinstance(g, int)]
+        impl = None
+        if ga:
+            for f_ in eng.fx.raw["fns"]:
+                if f_.get("trait") == tr and f_.get("item") == "fmt" and f_.get("self_ty") == ga[0] and f_.get("body"):
+                    impl = f_
+        if impl is not None and site[0].depth < 30:
+            fcell = ("tmp", eng.fresh("formatter"))
+            st.cells[fcell] = VUnknown(None, eng.fresh("formatter"))
+            out = []
+            for s2, _r in eng.call_local(st, site, impl["key"], [args[0], VRef(fcell, (), True)], tag="fmt"):
+                out.append((s2, VUnknown(dty, eng.fresh("fmtarg"))))
+            if out:
+                return out
     if nm.startswith("std::io::"):
         st.emit(("io", nm, site_info(site)))
     if "Formatter" in nm and ("write_str" in nm or "write_fmt" in nm):
